@@ -345,6 +345,12 @@ func Invoke(inv Invocation) int {
 	if inv.CacheDir == "" {
 		inv.CacheDir = mg.CacheDir()
 	}
+	// the binary is built by a go command running in inv.Dir and run with
+	// inv.WorkDir as working directory, so a relative cache directory must be
+	// resolved once, against the directory mage was started in.
+	if abs, err := filepath.Abs(inv.CacheDir); err == nil {
+		inv.CacheDir = abs
+	}
 
 	files, err := Magefiles(inv.Dir, inv.GOOS, inv.GOARCH, inv.GoCmd, inv.Stderr, inv.UsesMagefiles(), inv.Debug)
 	if err != nil {
